@@ -81,3 +81,16 @@ M("c06-stats-divisor", "C06", B, "        nsamps_sel = (self.header.nsamples - s
 M("c06-dedisp-kernel-delay", "C06", K, "            outarray[index + isamp] += inarray[nchans * (isamp + delays[ichan]) + ichan]", "            outarray[index + isamp] += inarray[nchans * (isamp + delays[nchans - 1 - ichan]) + ichan]")
 M("c06-m3-term", "C06", K, "    m3 += term * delta_n * (n - 2) - 3 * delta_n * m2", "    m3 += term * delta_n * (n - 2) + 3 * delta_n * m2")
 M("c06-dedisp-len", "C06", B, "        tim_len = nsamps_sel - max_delay\n", "        tim_len = self.header.nsamples - start - max_delay\n", "length ignores nsamps")
+
+# ---- C07
+M("c07-mask-first-block-only", "C07", B, "            kernels.mask_channels(data, mask, mask_value, self.header.nchans, nsamps_r)", "            if _ii < 2:\n                kernels.mask_channels(data, mask, mask_value, self.header.nchans, nsamps_r)", "mask applied to the first two blocks only")
+M("c07-chan_to_sub", "C07", B, '        chan_to_sub = np.arange(self.header.nchans, dtype="int32") // subfactor', '        chan_to_sub = np.arange(self.header.nchans, dtype="int32") % nsub')
+M("c07-invert-later-blocks", "C07", B, "            out_ar = kernels.invert_freq(data, self.header.nchans, nsamps_r)\n            out_file.cwrite(out_ar)", "            out_ar = kernels.invert_freq(data, self.header.nchans, nsamps_r)\n            out_file.cwrite(out_ar if nsamps_r > 1 else data)", "single-sample blocks are not inverted")
+M("c07-bands-batch-offset", "C07", B, "                        iband_chanstart = chanstart + (batch_start + ifile) * chanpersub", "                        iband_chanstart = chanstart + ifile * chanpersub")
+M("c07-chans-batch-offset", "C07", B, "                        out_file.cwrite(data_2d[:, batch_chans[ifile]])", "                        out_file.cwrite(data_2d[:, chans[ifile]])")
+M("c07-downsample-gulp-not-rounded", "C07", B, "        gulp = int(np.ceil(gulp / tfactor) * tfactor)", "        gulp = int(gulp)")
+M("c07-downsample-dims", "C07", B, "                ffactor,\n                nsamps_r,\n                self.header.nchans,\n            )", "                ffactor,\n                self.header.nchans,\n                nsamps_r,\n            )", "original F07a")
+M("c07-zerodm-weights", "C07", B, "        chanwts = bpass / bpass.sum()", "        chanwts = bpass / (bpass.sum() + bpass.min())")
+M("c07-subband-zero-once", "C07", B, "            out_ar.fill(0)\n", "            if _ii == 0:\n                out_ar.fill(0)\n")
+M("c07-samps-tail", "C07", B, "        for _, _, data in self.read_plan(\n            gulp=gulp,\n            start=start,\n            nsamps=nsamps,\n            **plan_kwargs,\n        ):\n            out_file.cwrite(data)\n        out_file.close()\n        return outfile_name\n\n    def extract_chans(",
+  "        for _, _, data in self.read_plan(\n            gulp=gulp,\n            start=start,\n            nsamps=nsamps - (nsamps % gulp == 1 and nsamps > gulp),\n            **plan_kwargs,\n        ):\n            out_file.cwrite(data)\n        out_file.close()\n        return outfile_name\n\n    def extract_chans(", "extract_samps drops a one-sample last block")
